@@ -4,8 +4,6 @@ import CnlModel.Layered
 namespace Cnl.Drv
 open Cnl
 
-def showNum (x : Num) : String := x.1.toString ++ ":" ++ toString x.2
-
 /-- innermost built-in type of a nest -/
 def innerTy : Ty → Option IntTy
   | .int t => some t
